@@ -443,7 +443,7 @@ class ExtendedNonlocalGame:
                 mat[x_in, y_in] = cvxpy.Variable(
                     (alice_out * referee_dim, bob_out * referee_dim),
                     name=f"K(a, b | {x_in}, {y_in})",
-                    hermitian=True,
+                    complex=True,
                 )
 
         p_win = cvxpy.Constant(0)
@@ -460,6 +460,17 @@ class ExtendedNonlocalGame:
                         )
 
         npa = npa_constraints(mat, k, referee_dim)
+        # Every block K(a, b | x, y) is an (unnormalised) state of the referee, hence Hermitian; the matrix of
+        # blocks as a whole is not (that would force K(a, b | x, y)^* = K(b, a | x, y)).
+        for x_in in range(alice_in):
+            for y_in in range(bob_in):
+                for a_out in range(alice_out):
+                    for b_out in range(bob_out):
+                        block = mat[x_in, y_in][
+                            a_out * referee_dim : (a_out + 1) * referee_dim,
+                            b_out * referee_dim : (b_out + 1) * referee_dim,
+                        ]
+                        npa.append(block == block.H)
         objective = cvxpy.Maximize(cvxpy.real(p_win))
         problem = cvxpy.Problem(objective, npa)
         cs_val = problem.solve()
